@@ -117,24 +117,51 @@ structure Inv (S : QDict) (st : St) : Prop where
 /-- recognised keys carry at least one value (what `vals[0]` needs) -/
 def HasVals (qs : QDict) : Prop := ∀ e ∈ qs, (nameCls e.1).isSome = true ∨ (idCls e.1).isSome = true → e.2 ≠ []
 
+/-- with `fullmatch` + the membership guard a branch is taken exactly when the key is classified, never raising -/
+theorem branchHit_full (r : Rule) (hr : r.fullMatch = true) (keys : List Str) (table : List (Str × Int)) (q : Str) :
+    branchHit r keys table q = .ok (cls keys table q) := by
+  unfold branchHit cls
+  rw [hr]
+  by_cases h : reMatchKeys true keys q = true
+  · simp only [h, if_true]
+    cases List.lookup (upperStr q) table <;> rfl
+  · simp only [h, Bool.false_eq_true, if_false]; rfl
+
+/-- one loop iteration in terms of the classification -/
+def stepCls (r : Rule) (st : St) (e : Str × List Str) : R St :=
+  match nameCls e.1 with
+  | some this =>
+    if better r st.key this then
+      match e.2 with
+      | [] => throw .indexError
+      | v :: _ => pure { st with name := some v, key := some this }
+    else pure st
+  | none =>
+    match idCls e.1 with
+    | some this =>
+      if better r st.idKey this then
+        match e.2 with
+        | [] => throw .indexError
+        | v :: _ => pure { st with id := some v, idKey := some this }
+      else pure st
+    | none => pure st
+
+theorem step_eq_stepCls (r : Rule) (hr : r.fullMatch = true) (st : St) (e : Str × List Str) :
+    step r st e = stepCls r st e := by
+  unfold step stepCls
+  rw [branchHit_full r hr, branchHit_full r hr]
+  simp only [bind, Except.bind]
+  rfl
+
 theorem step_inv {S : QDict} {st : St} {e : Str × List Str} (h : Inv S st)
     (hv : (nameCls e.1).isSome = true ∨ (idCls e.1).isSome = true → e.2 ≠ []) :
     ∃ st', step Rule.repaired st e = .ok st' ∧ Inv (S ++ [e]) st' := by
+  rw [step_eq_stepCls Rule.repaired rfl]
   obtain ⟨k, vals⟩ := e
-  unfold step
-  have hr : Rule.repaired.fullMatch = true := rfl
-  simp only [hr]
-  rw [reMatch_isSome nameFamOK, reMatch_isSome idFamOK]
+  unfold stepCls
   cases hn : nameCls k with
   | some p =>
-    have hn' : cls nameRegexKeys Gen.featureNameQualifiers k = some p := hn
-    have hl : Gen.featureNameQualifiers.lookup (upperStr k) = some p := by
-      have h0 := hn'
-      unfold cls at h0
-      rw [reMatch_isSome nameFamOK, hn'] at h0
-      simpa using h0
-    rw [hn']
-    simp only [Option.isSome_some, if_true, hl]
+    simp only
     cases vals with
     | nil => exact absurd rfl (hv (Or.inl (by rw [hn]; rfl)))
     | cons v vs =>
@@ -148,19 +175,10 @@ theorem step_inv {S : QDict} {st : St} {e : Str × List Str} (h : Inv S st)
         refine ⟨_, rfl, ⟨?_, hs⟩⟩
         simpa [hb] using hu
   | none =>
-    have hn' : cls nameRegexKeys Gen.featureNameQualifiers k = none := hn
-    rw [hn']
-    simp only [Option.isSome_none, Bool.false_eq_true, if_false]
+    simp only
     cases hi : idCls k with
     | some p =>
-      have hi' : cls idRegexKeys Gen.featureIdQualifiers k = some p := hi
-      have hl : Gen.featureIdQualifiers.lookup (upperStr k) = some p := by
-        have h0 := hi'
-        unfold cls at h0
-        rw [reMatch_isSome idFamOK, hi'] at h0
-        simpa using h0
-      rw [hi']
-      simp only [Option.isSome_some, if_true, hl]
+      simp only
       cases vals with
       | nil => exact absurd rfl (hv (Or.inr (by rw [hi]; rfl)))
       | cons v vs =>
@@ -174,9 +192,6 @@ theorem step_inv {S : QDict} {st : St} {e : Str × List Str} (h : Inv S st)
           refine ⟨_, rfl, ⟨hs, ?_⟩⟩
           simpa [hb] using hu
     | none =>
-      have hi' : cls idRegexKeys Gen.featureIdQualifiers k = none := hi
-      rw [hi']
-      simp only [Option.isSome_none, Bool.false_eq_true, if_false]
       exact ⟨st, rfl, ⟨side_skip h.name hn, side_skip h.id hi⟩⟩
 
 theorem loop_inv : ∀ (qs S : QDict) (st : St), Inv S st → HasVals qs →
